@@ -59,6 +59,11 @@ def check(repo, res, tier):
     res.rule('C05.L5', 'observation life cycle can complete: adopted C08.A7/A8/A9 (is_finished needs ast+duration and the '
                        'in-use flag, which is cleared only when no arrays are held)')
     borrow(repo, res, tier, c08, {'C08.A7', 'C08.A8', 'C08.A9'}, 'C05.L5')
+    from . import c04
+    res.rule('C05.L7', 'adopted C04.T2: a task is FINISHED only once its process has completed and the cluster has taken its '
+                       'machine back -- a task reported finished early lets the scheduler release a reservation that still '
+                       'has a busy machine, after which no later workflow can be provisioned')
+    borrow(repo, res, tier, c04, {'C04.T2'}, 'C05.L7')
 
 
 # ---------------------------------------------------------------------- L1
